@@ -1,6 +1,7 @@
 package cli
 
 import (
+	"bytes"
 	"context"
 	"encoding/json"
 	"fmt"
@@ -31,10 +32,17 @@ type ParseOptions struct {
 
 // decodeInto unmarshals in as YAML, then merges it into dest.
 func decodeInto(ctx context.Context, dest *map[string]interface{}, in io.Reader) error {
-	var intermediate map[string]interface{}
-	dec := yaml.NewDecoder(iotools.CancelableReader(ctx, in))
-	if err := dec.Decode(&intermediate); err != nil {
+	body, err := io.ReadAll(iotools.CancelableReader(ctx, in))
+	if err != nil {
 		return wrapError(StatusBadRequest, err)
+	}
+	var intermediate map[string]interface{}
+	if !decodeJSONObject(body, &intermediate) {
+		intermediate = nil
+		dec := yaml.NewDecoder(bytes.NewReader(body))
+		if err := dec.Decode(&intermediate); err != nil {
+			return wrapError(StatusBadRequest, err)
+		}
 	}
 	if err := stringKeysOnly(intermediate); err != nil {
 		return wrapError(StatusBadRequest, err)
@@ -43,6 +51,25 @@ func decodeInto(ctx context.Context, dest *map[string]interface{}, in io.Reader)
 		return wrapError(StatusUnprocessableEntity, err)
 	}
 	return nil
+}
+
+// decodeJSONObject reads data as one JSON object, if that is what it is. JSON
+// is not quite a subset of what the YAML decoder accepts: escapes such as
+// "\/" and "\ud83d\ude00" and a line break before a colon are refused by it,
+// although other producers of JSON write them.
+func decodeJSONObject(data []byte, out *map[string]interface{}) bool {
+	if t := bytes.TrimSpace(data); len(t) == 0 || t[0] != '{' {
+		return false
+	}
+	dec := json.NewDecoder(bytes.NewReader(data))
+	dec.UseNumber() // keep numbers as they are written
+	if err := dec.Decode(out); err != nil {
+		return false
+	}
+	if _, err := dec.Token(); err != io.EOF {
+		return false // something follows the object: leave it to the YAML decoder
+	}
+	return true
 }
 
 func parseGOBLData(ctx context.Context, opts *ParseOptions) (interface{}, error) {
